@@ -305,6 +305,9 @@ func (w *c05World) dump(tx *bbolt.Tx) string {
 					cg = append(cg, fmt.Sprintf("%d=%s", i, v))
 				}
 			}
+			sort.Strings(cs)
+			sort.Strings(ct)
+			sort.Strings(cg)
 			var craw []string
 			if b := c05RawBucket(tx, append(append([]string{}, st.basePath...), x, st.rcField)); b != nil {
 				_ = b.ForEach(func(k, v []byte) error {
@@ -659,6 +662,55 @@ func (g *c05Gen) genOp() c05Op {
 	}
 }
 
+// scenario: one scripted transaction around the corners the property is about - both ends deleted in
+// one transaction, delete and re-create in one transaction, link and delete in one transaction,
+// create + link rolled back by a later failure, operations naming a peer deleted just before
+func (g *c05Gen) scenario() []c05Op {
+	r := g.r
+	sd := r.intn(2)
+	od := 1 - sd
+	var in, peers, absent []string
+	for _, x := range g.uni[sd] {
+		if g.present[sd][x] {
+			in = append(in, x)
+		} else if !g.ghost[sd][x] {
+			absent = append(absent, x)
+		}
+	}
+	for _, x := range g.uni[od] {
+		if g.present[od][x] {
+			peers = append(peers, x)
+		}
+	}
+	if len(in) == 0 || len(peers) == 0 {
+		return nil
+	}
+	a, b := r.pick(in), r.pick(peers)
+	switch r.intn(6) {
+	case 0: // link, then both ends deleted, peer first
+		return []c05Op{{kind: "AL", sd: sd, a: a, keys: []string{b}}, {kind: "I", sd: sd, a: a, keys: []string{b}},
+			{kind: "D", sd: od, a: b}, {kind: "D", sd: sd, a: a}}
+	case 1: // delete and re-create in one transaction, then link again
+		return []c05Op{{kind: "D", sd: sd, a: a}, {kind: "C", sd: sd, a: a}, {kind: "SL", sd: sd, a: a, keys: []string{b, b}},
+			{kind: "DC", sd: od, a: b, keys: []string{a}}}
+	case 2: // link and delete in one transaction
+		return []c05Op{{kind: "AL", sd: sd, a: a, keys: peers}, {kind: "SC", sd: sd, a: a, keys: []string{b}, count: 2}, {kind: "D", sd: sd, a: a}}
+	case 3: // create and link, rolled back by a later failure
+		if len(absent) == 0 {
+			return nil
+		}
+		x := r.pick(absent)
+		return []c05Op{{kind: "C", sd: sd, a: x}, {kind: "AL", sd: sd, a: x, keys: []string{b}}, {kind: "I", sd: od, a: b, keys: []string{x}},
+			{kind: "D", sd: od, a: b}, {kind: "A1", sd: sd, a: x, keys: []string{b}}}
+	case 4: // operations that name a peer deleted just before
+		return []c05Op{{kind: "SC", sd: sd, a: a, keys: []string{b}, count: 1}, {kind: "A1", sd: sd, a: a, keys: []string{b}}, {kind: "D", sd: od, a: b},
+			{kind: "DC", sd: sd, a: a, keys: []string{b}}, {kind: "RL", sd: sd, a: a, keys: []string{b, b}}, {kind: "R1", sd: sd, a: a, keys: []string{b}}}
+	default: // count down to zero from both sides, then once more
+		return []c05Op{{kind: "SC", sd: sd, a: a, keys: []string{b}, count: 2}, {kind: "DC", sd: od, a: b, keys: []string{a}},
+			{kind: "DC", sd: sd, a: a, keys: []string{b}}, {kind: "DC", sd: od, a: b, keys: []string{a}}, {kind: "I", sd: od, a: b, keys: []string{a}}}
+	}
+}
+
 // fails: does the operation return an error in a state with this presence (exact for the
 // property-conforming implementation; used only to steer the generator)
 func (g *c05Gen) fails(op c05Op, present [2]map[string]bool) bool {
@@ -737,12 +789,24 @@ func (g *c05Gen) genHistory(maxOps int) (uA, uB []string, txs [][]c05Op) {
 		g2 := *g
 		g2.present = pres
 		failed := false
+		var script []c05Op
+		if r.chance(14) {
+			script = g.scenario()
+			if len(script) > 0 {
+				n = len(script)
+				g.stats["scenario_tx"]++
+			}
+		}
 		for i := 0; i < n; i++ {
 			var op c05Op
-			for try := 0; try < 8; try++ {
-				op = g2.genOp()
-				if allowFail || !g2.fails(op, pres) {
-					break
+			if script != nil {
+				op = script[i]
+			} else {
+				for try := 0; try < 8; try++ {
+					op = g2.genOp()
+					if allowFail || !g2.fails(op, pres) {
+						break
+					}
 				}
 			}
 			tx = append(tx, op)
@@ -769,6 +833,52 @@ func (g *c05Gen) genHistory(maxOps int) (uA, uB []string, txs [][]c05Op) {
 		txs = append(txs, tx)
 	}
 	return g.uni[0], g.uni[1], txs
+}
+
+func (g *c05Gen) genWideHistory() (uA, uB []string, txs [][]c05Op) {
+	r := g.r
+	uA = []string{"a", "b", "c"}
+	nB := 120 + r.intn(120)
+	for i := 0; i < nB; i++ {
+		uB = append(uB, fmt.Sprintf("k%03d-%s", i, strings.Repeat("x", 20+r.intn(30))))
+	}
+	sort.Strings(uB)
+	subset := func(pct int) []string {
+		var ks []string
+		for _, k := range uB {
+			if r.chance(pct) {
+				ks = append(ks, k)
+			}
+		}
+		for i := len(ks) - 1; i > 0; i-- {
+			j := r.intn(i + 1)
+			ks[i], ks[j] = ks[j], ks[i]
+		}
+		return ks
+	}
+	var create []c05Op
+	for _, x := range uA {
+		create = append(create, c05Op{kind: "C", sd: 0, a: x})
+	}
+	for _, k := range uB {
+		create = append(create, c05Op{kind: "C", sd: 1, a: k})
+	}
+	txs = append(txs, create)
+	txs = append(txs, []c05Op{{kind: "AL", sd: 0, a: "a", keys: subset(90)}, {kind: "AL", sd: 0, a: "b", keys: subset(50)}})
+	var rcs []c05Op
+	for _, k := range subset(60) {
+		rcs = append(rcs, c05Op{kind: "I", sd: 0, a: "a", keys: []string{k}})
+	}
+	txs = append(txs, rcs)
+	txs = append(txs, []c05Op{{kind: "SL", sd: 0, a: "a", keys: subset(40)}, {kind: "SL", sd: 0, a: "c", keys: subset(70)}})
+	var dels []c05Op
+	for _, k := range subset(10) {
+		dels = append(dels, c05Op{kind: "D", sd: 1, a: k})
+	}
+	txs = append(txs, dels)
+	txs = append(txs, []c05Op{{kind: "RL", sd: 0, a: "b", keys: subset(30)}, {kind: "D", sd: 0, a: "a"}})
+	txs = append(txs, []c05Op{{kind: "D", sd: 0, a: "c"}, {kind: "C", sd: 0, a: "a"}, {kind: "SL", sd: 1, a: uB[0], keys: []string{"a", "b", "a"}}})
+	return uA, uB, txs
 }
 
 // all lists over alphabet of length <= maxLen, in length-lexicographic order
@@ -919,6 +1029,21 @@ func runC05(o *opts) error {
 		}
 		runLine(c05HistoryText(uA, uB, h))
 	}
+	// 3. wide histories: link buckets that no longer fit a page (cursor over real pages while the other
+	// side is written)
+	nw := 4
+	if o.thorough() {
+		nw = 60
+	}
+	for i := 0; i < nw; i++ {
+		uA, uB, h := g.genWideHistory()
+		for _, tx := range h {
+			txs++
+			ops += len(tx)
+		}
+		runLine(c05HistoryText(uA, uB, h))
+	}
+	stats["wide_histories"] = nw
 	stats["histories"] = nh
 	stats["transactions"] = txs
 	stats["operations"] = ops
